@@ -97,7 +97,7 @@ def _batch_result(rng, depth, maxd):
             err = ErrorObject(message=rng.choice(["m", None, ""]), type=rng.choice(["T", "ValueError"]), data=rng.choice([None, "d"]),
                               stack_trace=rng.choice([None, ["a", "b"], []]))
         elif st is BatchItemStatus.SUCCEEDED:
-            res = gen(rng, depth + 2, maxd, False)
+            res = gen(rng, depth + 2, maxd, rng.random() < 0.3)  # sometimes adversarial (non-string keys, look-alikes) below a batch item
         items.append(BatchItem(i, st, res, err))
     return BatchResult(items, rng.choice(list(CompletionReason)))
 
@@ -178,7 +178,38 @@ def check_value(v, origin):
     if canon(v2) != c0:
         d = first_diff(v, v2) or "unknown"
         return V(PROP, "C15/silently-altered/%s" % d, "value %.100r came back as %.100r" % (v, v2)), "violation"
+    # the decoded value belongs to the caller: updating it in place must not change what the same text decodes to next time
+    if _mutate(v2):
+        sys.setrecursionlimit(DEFAULT_LIMIT)
+        try:
+            v3 = deserialize(None, s, "op", "arn")
+        except (ExecutionError, RecursionError):
+            return None, "roundtrip"
+        finally:
+            sys.setrecursionlimit(20000)
+        if canon(v3) != c0:
+            return V(PROP, "C15/decoded-value-aliased/%s" % (first_diff(v, v3) or "unknown"),
+                     "after the caller updated the decoded value in place, the same text %.60r decoded to %.100r instead of %.100r" % (s, v3, v)), "violation"
     return None, "roundtrip"
+
+
+def _mutate(x, depth=0) -> bool:
+    """Update every list / dict inside x in place; True if something was changed."""
+    if depth > 50:
+        return False
+    if type(x) is list:
+        ch = any([_mutate(y, depth + 1) for y in x])
+        x.append("<mutated>")
+        return True or ch
+    if type(x) is dict:
+        ch = any([_mutate(y, depth + 1) for y in list(x.values())])
+        x["<mutated>"] = 1
+        return True or ch
+    if type(x) is tuple:
+        return any([_mutate(y, depth + 1) for y in x])
+    if type(x).__name__ == "BatchResult":
+        return any([_mutate(it.result, depth + 1) for it in x.all])
+    return False
 
 
 def cases(tier, seed):
@@ -284,7 +315,7 @@ RULE = ("seeded typed-grammar generator over the serializer's stated domain (exa
         "str incl. lone surrogates/bytes/UUID/Decimal incl. NaN, sNaN with payload, Inf, up to 100 significant digits, a quarter of the cases under a narrow caller decimal context/datetime naive, UTC, arbitrary fixed offsets, fold/date; lists, tuples, "
         "string-keyed dicts, BatchResults to depth 8; chains to depth 600) plus adversarial classes (envelope look-alikes, empty containers, "
         "bool/int/float look-alikes, dicts with int/bool/None/float/bytes/tuple/UUID/date/Decimal keys and colliding keys). Oracle: serialize "
-        "raises, or canon(deserialize(serialize(v))) == canon(v) with a type-tagged NaN/-0.0/Decimal/tz-aware canonical form. A class = "
+        "raises, or canon(deserialize(serialize(v))) == canon(v), and after the caller updates the decoded value in place the same text still decodes to v; oracle form: canon(deserialize(serialize(v))) == canon(v) with a type-tagged NaN/-0.0/Decimal/tz-aware canonical form. A class = "
         "(leading type tag, outcome, size bucket).")
 
 if __name__ == "__main__":
